@@ -266,6 +266,24 @@ PROPS = {
         'level_note': 'Trusted: rustc front end + MIR, the extractor.',
         'technique': 'sibling cross-check of look-up profiles + ordering rules over resolved MIR (rustc_private driver)',
     },
+    'C18': {
+        'module': 'c18',
+        'explanation': 'Only the Rust-side structural fragment of iteration: every built-in iter() native allocates a new iterator '
+                       'whose cursor starts at the beginning (so nested / interleaved loops over one value are independent); the '
+                       'end-of-iteration sentinel produced by every native next() is an instance of the same StopIter class the '
+                       'for loop tests; the Vec / Tuple / Range / String cursors yield the element at the cursor and then advance by '
+                       'exactly one element; the for statement is desugared in the order the protocol needs (iter once, then per '
+                       'iteration next / bind / test / body / loop), with the loop header recorded before the fetch so that '
+                       '`continue` fetches the next element. The adapters map / filter / reduce / collect are Yarel source in '
+                       'core.yl and are not analysed.',
+        'assumptions': COMMON_ASSUME,
+        'not_decided': ['map / filter / reduce / collect results (Yarel source, outside the analysed program)',
+                        'user-defined iterator classes', 'that the sequence of yielded values equals the model sequence (a run-time statement)'],
+        'level_text': 'Decides Q1-Q4, necessary conditions of the iteration protocol on the Rust side; says nothing about the adapters.',
+        'design_ref': 'DESIGN.md section 3a.8',
+        'level_note': 'Trusted: rustc front end + MIR, the extractor. A narrow fragment: see not_decided.',
+        'technique': 'cursor-update shape + sentinel agreement + emission-order rules over resolved MIR (rustc_private driver)',
+    },
     'C19': {
         'module': 'c19',
         'explanation': 'Only the structural part: numbers are printed through exactly std\'s Display for f64 with the plain `{}` '
@@ -285,10 +303,7 @@ PROPS = {
     },
 }
 
-NOT_APPLICABLE = {
-    'C18': 'iteration order / exactly-once visiting / adapter results are run-time values produced by cursors; the adapters are '
-           'Yarel source (core.yl) that a Rust-level static analysis cannot see; the only structural fragment is already pinned by tests',
-}
+NOT_APPLICABLE = {}
 PENDING = []
 for _p in PENDING:
     if _p not in PROPS:
